@@ -1,4 +1,5 @@
 import SafeNet.Proofs.Quote
+import SafeNet.Model.QuoteHist
 /-!
 # C13 — payment quotes are bound to their signer and to every signed field
 
@@ -222,6 +223,131 @@ theorem historical_sync (a b : Hist) (now : Nat) (hlater : a.ts ≤ b.ts) (hpast
   have : ¬ b.ts > now := by omega
   simp [*]
 
+/-! ## the use site: `SwarmDriver::verify_peer_quote` (quote history per peer, `NodeIssue::BadQuoting`) -/
+
+section History
+open SafeNet.QuoteHist
+
+/-- for quotes with different timestamps `historical_verify` does not depend on which one is `self` -/
+theorem historical_symm (a b : Hist) (now : Nat) (h : a.ts ≠ b.ts) :
+    historicalVerify a b now = historicalVerify b a now := by
+  rcases Nat.lt_or_gt_of_ne h with h | h
+  · have n1 : isNewerThan a.ts b.ts = false := by simp [isNewerThan, newerCmp]; omega
+    have n2 : isNewerThan b.ts a.ts = true := by simp [isNewerThan, newerCmp]; omega
+    simp [historicalVerify, n1, n2]
+  · have n1 : isNewerThan a.ts b.ts = true := by simp [isNewerThan, newerCmp]; omega
+    have n2 : isNewerThan b.ts a.ts = false := by simp [isNewerThan, newerCmp]; omega
+    simp [historicalVerify, n1, n2]
+
+theorem deliver_first (q : Hist) (now : Nat) : deliver .empty q now = ⟨some q, false⟩ := rfl
+
+theorem deliver_inconsistent (h q : Hist) (f : Bool) (now : Nat) (hinc : historicalVerify h q now = false) :
+    (deliver ⟨some h, f⟩ q now).flagged = true := by
+  simp [deliver, runChecks, historyChecks, hinc]
+
+/-- **inconsistent_pair_flagged.** Two quotes of one peer (different timestamps) that are inconsistent per
+`historical_verify`: whichever arrives first, the second arrival records the issue — also when the later-dated
+quote was stored first and the earlier-dated one arrives afterwards. -/
+theorem inconsistent_pair_flagged (a b : Hist) (now0 now : Nat) (hne : a.ts ≠ b.ts)
+    (hinc : historicalVerify a b now = false) :
+    (deliver (deliver .empty a now0) b now).flagged = true ∧
+    (deliver (deliver .empty b now0) a now).flagged = true := by
+  rw [deliver_first, deliver_first]
+  exact ⟨deliver_inconsistent a b false now hinc,
+    deliver_inconsistent b a false now (by rw [← historical_symm a b now hne]; exact hinc)⟩
+
+/-- the property's clause at the use site: a later quote of the node reporting less uptime or fewer received
+payments than an earlier one is flagged, in either arrival order, whatever the clock says -/
+theorem later_lesser_flagged_any_order (a b : Hist) (now0 now : Nat) (hlater : a.ts < b.ts)
+    (h : b.liveTime < a.liveTime ∨ b.paid < a.paid) :
+    (deliver (deliver .empty a now0) b now).flagged = true ∧
+    (deliver (deliver .empty b now0) a now).flagged = true :=
+  inconsistent_pair_flagged a b now0 now (by omega) (historical_flags a b now hlater h).1
+
+theorem deliver_flagged_mono (s : PeerState) (q : Hist) (now : Nat) (h : s.flagged = true) :
+    (deliver s q now).flagged = true := by
+  unfold deliver
+  cases s.history with
+  | none => exact h
+  | some hq => simp only []; cases hr : runChecks hq q now historyChecks <;> simp [h]
+
+/-- the remembered quote is one of the delivered quotes and no delivered quote is newer -/
+def Newest (s : PeerState) (seen : List Hist) : Prop :=
+  match s.history with
+  | none => seen = []
+  | some h => h ∈ seen ∧ ∀ q ∈ seen, q.ts ≤ h.ts
+
+theorem deliver_newest (s : PeerState) (seen : List Hist) (q : Hist) (now : Nat) (hn : Newest s seen)
+    (hf : (deliver s q now).flagged = false) : Newest (deliver s q now) (seen ++ [q]) := by
+  unfold Newest at hn
+  unfold deliver at hf ⊢
+  cases hh : s.history with
+  | none =>
+    rw [hh] at hn; subst hn
+    simp [Newest]
+  | some h =>
+    rw [hh] at hn
+    obtain ⟨hm, hle⟩ := hn
+    simp only [hh] at hf ⊢
+    by_cases hv : historicalVerify h q now = true
+    · by_cases hnw : isNewerThan h.ts q.ts = true
+      · have : runChecks h q now historyChecks = .ignore := by simp [runChecks, historyChecks, hv, hnw]
+        rw [this]
+        have hgt : q.ts < h.ts := by simpa [isNewerThan, newerCmp] using hnw
+        simp only [Newest, hh, List.mem_append, List.mem_singleton]
+        exact ⟨Or.inl hm, fun x hx => by rcases hx with hx | rfl; exact hle x hx; omega⟩
+      · have : runChecks h q now historyChecks = .store := by simp [runChecks, historyChecks, hv, hnw]
+        rw [this]
+        have hge : h.ts ≤ q.ts := by
+          have : ¬ (q.ts < h.ts) := by simpa [isNewerThan, newerCmp] using hnw
+          omega
+        simp only [Newest, List.mem_append, List.mem_singleton]
+        exact ⟨by simp, fun x hx => by rcases hx with hx | rfl; exact Nat.le_trans (hle x hx) hge; exact Nat.le_refl _⟩
+    · have : runChecks h q now historyChecks = .flag := by simp [runChecks, historyChecks, hv]
+      rw [this] at hf
+      simp at hf
+
+theorem run_newest (qs : List (Hist × Nat)) (s : PeerState) (seen : List Hist) (hn : Newest s seen)
+    (hf : (run s qs).flagged = false) : Newest (run s qs) (seen ++ qs.map (·.1)) := by
+  induction qs generalizing s seen with
+  | nil => simpa [run] using hn
+  | cons e rest ih =>
+    obtain ⟨q, now⟩ := e
+    simp only [run] at hf ⊢
+    have hf1 : (deliver s q now).flagged = false := by
+      cases hd : (deliver s q now).flagged with
+      | false => rfl
+      | true =>
+        have hmono : ∀ (l : List (Hist × Nat)) (t : PeerState), t.flagged = true → (run t l).flagged = true := by
+          intro l
+          induction l with
+          | nil => intro t ht; exact ht
+          | cons e' l' ih' => intro t ht; exact ih' _ (deliver_flagged_mono t e'.1 e'.2 ht)
+        rw [hmono rest _ hd] at hf; cases hf
+    have := ih (deliver s q now) (seen ++ [q]) (deliver_newest s seen q now hn hf1) hf
+    simpa [List.append_assoc] using this
+
+/-- **history_keeps_newest.** After any batch of deliveries for one peer in which nothing was flagged, the remembered
+quote is one of the delivered quotes and none of them is newer (out-of-order arrivals never replace a newer quote). -/
+theorem history_keeps_newest (qs : List (Hist × Nat)) (hne : qs ≠ [])
+    (hf : (run .empty qs).flagged = false) :
+    ∃ h, (run .empty qs).history = some h ∧ h ∈ qs.map (·.1) ∧ ∀ q ∈ qs.map (·.1), q.ts ≤ h.ts := by
+  have hn := run_newest qs .empty [] (by simp [Newest, PeerState.empty]) hf
+  simp only [List.nil_append] at hn
+  unfold Newest at hn
+  cases hh : (run .empty qs).history with
+  | none =>
+    rw [hh] at hn
+    cases qs with
+    | nil => exact absurd rfl hne
+    | cons _ _ => simp at hn
+  | some h => rw [hh] at hn; exact ⟨h, rfl, hn.1, hn.2⟩
+
+example : (deliver (deliver .empty ⟨200, 10, 10⟩ 0) ⟨100, 10, 12⟩ 1000).flagged = true := by decide
+example : (run .empty [(⟨100, 10, 10⟩, 1000), (⟨300, 10, 10⟩, 1000), (⟨200, 10, 10⟩, 1000)]).history = some ⟨300, 10, 10⟩ := by decide
+
+end History
+
 /-! ## known finding K-i: the sub-second part of the timestamp is not signed -/
 
 /-- The full reading of "signature over exactly the quote's … timestamp …": equal signing bytes force equal timestamps. -/
@@ -308,5 +434,9 @@ end SafeNet.Props.C13
 #print axioms SafeNet.Props.C13.proof_expired_iff
 #print axioms SafeNet.Props.C13.historical_flags
 #print axioms SafeNet.Props.C13.historical_sync
+#print axioms SafeNet.Props.C13.historical_symm
+#print axioms SafeNet.Props.C13.inconsistent_pair_flagged
+#print axioms SafeNet.Props.C13.later_lesser_flagged_any_order
+#print axioms SafeNet.Props.C13.history_keeps_newest
 #print axioms SafeNet.Props.C13.subsecond_not_bound_witness
 #print axioms SafeNet.Props.C13.timestamp_not_fully_bound
